@@ -226,18 +226,22 @@ theorem est_lin3 (S S' R delay : Nat) (hS' : S' = S / 16384 * 16384)
     S' ≤ R ∧ R < S' + 274877906944 := by
   omega
 
-/-- the core of `c18_estimate` on naturals -/
-theorem estimate_nat (send delay : Nat) (hs : send < 2085978496 * 1000000000)
+/-- the send instant rounded down to the field's 2^-18 s grid, via NTP units and back — what `Estimate` returns -/
+def gridNs (send : Nat) : Nat :=
+  send / 1000000000 * 1000000000 +
+    send % 1000000000 * 4294967296 / 1000000000 / 16384 * 16384 * 1000000000 / 4294967296
+
+theorem est_lin2' (q g : Nat) : (q + 2208988800 - 2208988800) * 1000000000 + g = q * 1000000000 + g := by
+  omega
+
+/-- `Estimate` does not depend on the delay at all, as long as it is in range -/
+theorem estimate_nat_eq (send delay : Nat) (hs : send < 2085978496 * 1000000000)
     (hd : delay * 262144 + 1000000000 < 64 * 1000000000 * 262144) :
-    estimateNat (ntpNat send / 16384) (send + delay) ≤ send ∧
-    send ≤ estimateNat (ntpNat send / 16384) (send + delay) + 3815 := by
+    estimateNat (ntpNat send / 16384) (send + delay) = gridNs send := by
   have hS : ntpNat send = ntpFull send := by rw [ntpNat_parts send hs]; rfl
-  have a := div_bounds (send % 1000000000 * 4294967296) 1000000000 (by decide)
   have fr := frac_roundtrip (send % 1000000000) (Nat.mod_lt _ (by decide))
   have e1 := Nat.div_add_mod send 1000000000
   obtain ⟨k1, k2, k3, k4⟩ := est_lin1 send _ _ hs fr.1 e1
-  have c := div_bounds (send % 1000000000 * 4294967296 / 1000000000 / 16384 * 16384 * 1000000000) 4294967296 (by decide)
-  have fin := est_lin2 send _ _ _ e1 (grid_lin _ _ _ a.1 a.2 c.1 c.2)
   -- the grid point below the send time
   have hS' : ntpFull send / 16384 * 16384 =
       (send / 1000000000 + 2208988800) * 4294967296 + send % 1000000000 * 4294967296 / 1000000000 / 16384 * 16384 :=
@@ -247,9 +251,26 @@ theorem estimate_nat (send delay : Nat) (hs : send < 2085978496 * 1000000000)
   have hlt : ntpFull send / 16384 * 16384 < 18446744073709551616 := by
     rw [hS']; exact k4
   have hsp := splice _ _ hlo hhi hlt
-  unfold estimateNat
-  rw [hS, ntpNat_eq_full_mod (send + delay), grid_field, hsp, hS', timeNat_parts _ _ k1 k2 k3]
-  exact fin
+  unfold estimateNat gridNs
+  rw [hS, ntpNat_eq_full_mod (send + delay), grid_field, hsp, hS', timeNat_parts _ _ k1 k2 k3, est_lin2']
+
+/-- the grid point is at most 3815 ns below the instant -/
+theorem gridNs_bounds (send : Nat) : gridNs send ≤ send ∧ send ≤ gridNs send + 3815 := by
+  have a := div_bounds (send % 1000000000 * 4294967296) 1000000000 (by decide)
+  have e1 := Nat.div_add_mod send 1000000000
+  have c := div_bounds (send % 1000000000 * 4294967296 / 1000000000 / 16384 * 16384 * 1000000000) 4294967296 (by decide)
+  have g := grid_lin _ _ _ a.1 a.2 c.1 c.2
+  unfold gridNs
+  omega
+
+/-- the core of `c18_estimate` on naturals -/
+theorem estimate_nat (send delay : Nat) (hs : send < 2085978496 * 1000000000)
+    (hd : delay * 262144 + 1000000000 < 64 * 1000000000 * 262144) :
+    estimateNat (ntpNat send / 16384) (send + delay) ≤ send ∧
+    send ≤ estimateNat (ntpNat send / 16384) (send + delay) + 3815 := by
+  rw [estimate_nat_eq send delay hs hd]
+  exact gridNs_bounds send
+
 theorem ntpNat_lt (u : Nat) : ntpNat u < 18446744073709551616 := by
   unfold ntpNat
   have a := div_bounds (u % 1000000000 * 4294967296) 1000000000 (by decide)
@@ -293,9 +314,9 @@ theorem wf_nat (s d : Int) (n m : Nat) (hs : (n : Int) = s) (hd : (m : Int) = d)
   omega
 
 open Rtp.Pred.C18 in
-theorem estimate_ok (send delay : Int64) (h : estimateWF send delay = true) :
-    0 ≤ send.toInt - (estimateNs (sendTimestamp send &&& 0xFFFFFF) (send + delay)).toInt ∧
-    send.toInt - (estimateNs (sendTimestamp send &&& 0xFFFFFF) (send + delay)).toInt ≤ 3815 := by
+/-- on the property's ranges the estimate is the grid point below the send instant, whatever the delay -/
+theorem estimate_eq (send delay : Int64) (h : estimateWF send delay = true) :
+    (estimateNs (sendTimestamp send &&& 0xFFFFFF) (send + delay)).toInt = gridNs send.toUInt64.toNat := by
   simp only [estimateWF, instantOk, delayOk, eraEndNs_eq, Bool.and_eq_true, decide_eq_true_eq] at h
   obtain ⟨⟨s0, s1⟩, d0, d1⟩ := h
   have hs := toNat_of_nonneg send s0
@@ -307,18 +328,31 @@ theorem estimate_ok (send delay : Int64) (h : estimateWF send delay = true) :
     simp only [sendTimestamp, newAbsSendTime]
     rw [UInt64.toNat_and, UInt64.toNat_shiftRight, toNtpTime_toNat, show (0xFFFFFF : UInt64).toNat = 2 ^ 24 - 1 from rfl,
       Bits.nat_and_mask, show (14 : UInt64).toNat % 64 = 14 from rfl, Nat.shiftRight_eq_div_pow]
-  have hn := estimate_nat _ _ hsN hdN
-  have e : (estimate (sendTimestamp send &&& 0xFFFFFF) (send + delay).toUInt64).toNat =
-      estimateNat (ntpNat send.toUInt64.toNat / 16384) (send.toUInt64.toNat + delay.toUInt64.toNat) := by
-    rw [estimate_toNat, hts, hsum, estimateNat_mod]
+  have hn := estimate_nat_eq _ _ hsN hdN
+  have hb := gridNs_bounds send.toUInt64.toNat
+  have e : (estimate (sendTimestamp send &&& 0xFFFFFF) (send + delay).toUInt64).toNat = gridNs send.toUInt64.toNat := by
+    rw [estimate_toNat, hts, hsum, estimateNat_mod, hn]
   have hlt : (estimate (sendTimestamp send &&& 0xFFFFFF) (send + delay).toUInt64).toNat < 9223372036854775808 := by
-    rw [e]; exact Nat.lt_of_le_of_lt hn.1 (Nat.lt_trans hsN (by decide))
-  have he : (estimateNs (sendTimestamp send &&& 0xFFFFFF) (send + delay)).toInt =
-      estimateNat (ntpNat send.toUInt64.toNat / 16384) (send.toUInt64.toNat + delay.toUInt64.toNat) := by
-    simp only [estimateNs]
-    rw [toInt_toInt64 _ hlt, e]
-  rw [he]
-  exact int_fin _ _ _ 3815 hs hn
+    rw [e]; exact Nat.lt_of_le_of_lt hb.1 (Nat.lt_trans hsN (by decide))
+  simp only [estimateNs]
+  rw [toInt_toInt64 _ hlt, e]
+
+open Rtp.Pred.C18 in
+theorem estimate_ok (send delay : Int64) (h : estimateWF send delay = true) :
+    0 ≤ send.toInt - (estimateNs (sendTimestamp send &&& 0xFFFFFF) (send + delay)).toInt ∧
+    send.toInt - (estimateNs (sendTimestamp send &&& 0xFFFFFF) (send + delay)).toInt ≤ 3815 := by
+  rw [estimate_eq send delay h]
+  have h' := h
+  simp only [estimateWF, instantOk, Bool.and_eq_true, decide_eq_true_eq] at h'
+  exact int_fin _ _ _ 3815 (toNat_of_nonneg send h'.1.1) (gridNs_bounds _)
+
+open Rtp.Pred.C18 in
+/-- two receive instants within range of the same send instant give the same estimate -/
+theorem estimate_indep (send d1 d2 : Int64) (h1 : estimateWF send d1 = true) (h2 : estimateWF send d2 = true) :
+    estimateNs (sendTimestamp send &&& 0xFFFFFF) (send + d1) = estimateNs (sendTimestamp send &&& 0xFFFFFF) (send + d2) := by
+  apply Int64.toInt_inj.mp
+  rw [estimate_eq send d1 h1, estimate_eq send d2 h2]
+
 /-! ### Int64 arithmetic on values that do not wrap -/
 
 theorem bmod64 (n : Int) (h1 : -9223372036854775808 ≤ n) (h2 : n < 9223372036854775808) :
